@@ -1,11 +1,93 @@
-import TinysetModel.Proofs.Consts
-/-! C16 — see /verif/properties.jsonl.  Theorems for this property are being added; the ones
-below are the obligations checked so far. -/
+import TinysetModel.Proofs.PropsAux
+import TinysetModel.Proofs.Demo
+/-! C16 — serde round trip returns an equal set; the encoding is the plain member sequence.
+
+Model (`Proofs/OpsSpec.lean`): `ser c r = elems c r` — the default `Serialize` impl writes a sequence of `len()`
+items produced by `iter()`; `de c g fuel xs = extend c g fuel .empty xs` — the `Deserialize` visitor inserts the
+items one by one into `new()`.  The byte format of a sequence of integers belongs to the serde data format, not
+to this crate.  For `Set64<T>` the items are the `to_u64` encodings; their losslessness is C03.
+All statements: for every RNG oracle, state and fuel, whenever deserialisation returns. -/
 namespace C16
 open SC
 
-/-- the model's constants are the ones in the current source -/
-theorem consts_match : TinyC.codec64.splits = Gen.bitsplits64 ∧ TinyC.codec32.splits = Gen.bitsplits32 :=
-  ⟨bitsplits64_match, bitsplits32_match⟩
+section generic
+variable {c : Cfg} {D : Type}
+
+/-- the encoding is the member sequence: `len()` items, no value twice -/
+theorem ser_is_members (ok : CfgOK c) {r : Rp} (wf : WF c r) :
+    ser c r = elems c r ∧ (ser c r).length = len r ∧ (ser c r).Nodup :=
+  ⟨rfl, ser_length (coreOK ok detRng 0) wf, ser_nodup (coreOK ok detRng 0) wf⟩
+
+/-- deserialising ANY sequence of valid elements (any order, with duplicates) yields a well-formed set of
+exactly its distinct items -/
+theorem de_any_sequence (ok : CfgOK c) (g : Rng D) (fuel : Nat) {xs : List Nat} (hx : ∀ x ∈ xs, x < 2 ^ c.W)
+    {d d' : D} {r : Rp} (h : de c g fuel xs d = .ok (r, d')) :
+    WF c r ∧ (∀ x, x ∈ elems c r ↔ x ∈ xs) ∧ (elems c r).Nodup ∧ len r = xs.eraseDups.length :=
+  collect_loop_spec ok g fuel hx h
+
+/-- order and multiplicity of the serialised items do not matter: two sequences with the same items
+deserialise to `==` sets -/
+theorem de_order_irrelevant (ok : CfgOK c) (g : Rng D) (fuel : Nat) {xs ys : List Nat} (hx : ∀ x ∈ xs, x < 2 ^ c.W)
+    (hxy : ∀ x, x ∈ xs ↔ x ∈ ys) {d₁ d₁' d₂ d₂' : D} {r₁ r₂ : Rp}
+    (h1 : de c g fuel xs d₁ = .ok (r₁, d₁')) (h2 : de c g fuel ys d₂ = .ok (r₂, d₂')) : eqSet c r₁ r₂ = true :=
+  de_congr (coreOK ok g fuel) hx hxy h1 h2
+
+/-- the round trip: deserialising what was serialised gives a well-formed set that is `==` to the original
+(both ways round, and for `Set64::eq`), with the same `len`, and which serialises to a permutation of the
+original sequence -/
+theorem roundtrip (ok : CfgOK c) (g : Rng D) (fuel : Nat) {r r' : Rp} (wf : WF c r) {d d' : D}
+    (h : de c g fuel (ser c r) d = .ok (r', d')) :
+    WF c r' ∧ eqSet c r' r = true ∧ eqSet c r r' = true ∧ eqSet64 c r' r = true ∧ len r' = len r ∧
+      (ser c r').Perm (ser c r) :=
+  de_ser (coreOK ok g fuel) wf h
+
+end generic
+
+/-! ### instances -/
+
+theorem roundtrip_u64 {D : Type} (g : Rng D) (fuel : Nat) {r r' : Rp} (wf : WF cfg64 r) {d d' : D}
+    (h : de cfg64 g fuel (ser cfg64 r) d = .ok (r', d')) :
+    WF cfg64 r' ∧ eqSet cfg64 r' r = true ∧ eqSet cfg64 r r' = true ∧ eqSet64 cfg64 r' r = true ∧ len r' = len r ∧
+      (ser cfg64 r').Perm (ser cfg64 r) :=
+  de_ser (coreOK cfg64_ok g fuel) wf h
+theorem roundtrip_u32 {D : Type} (g : Rng D) (fuel : Nat) {r r' : Rp} (wf : WF cfg32 r) {d d' : D}
+    (h : de cfg32 g fuel (ser cfg32 r) d = .ok (r', d')) :
+    WF cfg32 r' ∧ eqSet cfg32 r' r = true ∧ eqSet cfg32 r r' = true ∧ eqSet64 cfg32 r' r = true ∧ len r' = len r ∧
+      (ser cfg32 r').Perm (ser cfg32 r) :=
+  de_ser (coreOK cfg32_ok g fuel) wf h
+
+theorem de_any_sequence_u64 {D : Type} (g : Rng D) (fuel : Nat) {xs : List Nat} (hx : ∀ x ∈ xs, x < 2 ^ 64)
+    {d d' : D} {r : Rp} (h : de cfg64 g fuel xs d = .ok (r, d')) :
+    WF cfg64 r ∧ (∀ x, x ∈ elems cfg64 r ↔ x ∈ xs) ∧ (elems cfg64 r).Nodup ∧ len r = xs.eraseDups.length :=
+  collect_loop_spec cfg64_ok g fuel hx h
+theorem de_any_sequence_u32 {D : Type} (g : Rng D) (fuel : Nat) {xs : List Nat} (hx : ∀ x ∈ xs, x < 2 ^ 32)
+    {d d' : D} {r : Rp} (h : de cfg32 g fuel xs d = .ok (r, d')) :
+    WF cfg32 r ∧ (∀ x, x ∈ elems cfg32 r ↔ x ∈ xs) ∧ (elems cfg32 r).Nodup ∧ len r = xs.eraseDups.length :=
+  collect_loop_spec cfg32_ok g fuel hx h
+
+theorem de_order_irrelevant_u64 {D : Type} (g : Rng D) (fuel : Nat) {xs ys : List Nat} (hx : ∀ x ∈ xs, x < 2 ^ 64)
+    (hxy : ∀ x, x ∈ xs ↔ x ∈ ys) {d₁ d₁' d₂ d₂' : D} {r₁ r₂ : Rp}
+    (h1 : de cfg64 g fuel xs d₁ = .ok (r₁, d₁')) (h2 : de cfg64 g fuel ys d₂ = .ok (r₂, d₂')) : eqSet cfg64 r₁ r₂ = true :=
+  de_congr (coreOK cfg64_ok g fuel) hx hxy h1 h2
+theorem de_order_irrelevant_u32 {D : Type} (g : Rng D) (fuel : Nat) {xs ys : List Nat} (hx : ∀ x ∈ xs, x < 2 ^ 32)
+    (hxy : ∀ x, x ∈ xs ↔ x ∈ ys) {d₁ d₁' d₂ d₂' : D} {r₁ r₂ : Rp}
+    (h1 : de cfg32 g fuel xs d₁ = .ok (r₁, d₁')) (h2 : de cfg32 g fuel ys d₂ = .ok (r₂, d₂')) : eqSet cfg32 r₁ r₂ = true :=
+  de_congr (coreOK cfg32_ok g fuel) hx hxy h1 h2
+
+/-! ### the hypotheses are satisfiable -/
+
+/-- the round trip of a reachable bitmap table returns (here in a different capacity than the original's) -/
+theorem demo_rt : de cfg64 detRng 6 (ser cfg64 Demo.bitmap64) () = .ok (.heap 2 2 23 #[360712192, 401016175510691840], ()) := by
+  decide +kernel
+example : eqSet cfg64 (.heap 2 2 23 #[360712192, 401016175510691840]) Demo.bitmap64 = true :=
+  (roundtrip_u64 detRng 6 Demo.bitmap64_wf demo_rt).2.1
+/-- a sequence with a duplicate, out of order (`Demo.loop_small32` is `de` of it) -/
+example : len (.heap 3 3 1 #[7, 2147483649, 11]) = [5, 3, 5, 2 ^ 30].eraseDups.length :=
+  (de_any_sequence_u32 detRng 6 (by decide) Demo.loop_small32).2.2.2
 
 end C16
+
+#print axioms C16.ser_is_members
+#print axioms C16.de_any_sequence
+#print axioms C16.de_order_irrelevant
+#print axioms C16.roundtrip
